@@ -7,6 +7,7 @@ import CrCube.Lemmas.SpecFacts
 import CrCube.Lemmas.Tensor
 import CrCube.Props.C06
 import CrCube.Lemmas.Slice1Var
+import CrCube.Lemmas.FlatPayload
 
 namespace CrCube.C01
 open CrCube
@@ -81,6 +82,24 @@ theorem flat_payload_reshape (vars : List Var) (s : Survey) (ix : List Nat)
     (h : InRange (rawShapeOf vars) ix) :
     (FT.ofFlat (rawShapeOf vars) (cubeFlat vars s)).get ix = (cubeOf vars s).get ix :=
   FT.ofFlat_flat (cubeOf vars s) ix h
+
+/-- **End to end from the flat payload**: the count extractor run on the RESHAPED FLAT LIST the
+    response carries (exactly what the driver executes and the library does) yields the
+    respondent-level count and bases of every cell. -/
+theorem counts_from_flat_payload (R C : Var) (hR : R.CM) (hC : C.CM) (hRw : R.WF) (hCw : C.WF)
+    (s : Survey) (i j : Nat) (hi : i < R.ext) (hj : j < C.ext) :
+    let m := sliceCounts [R, C] (FT.ofFlat (rawShapeOf [R, C]) (cubeFlat [R, C] s)) 0
+    m.counts i j = .fin (specCount [R, C] s [i, j] [false, false]) ∧
+    m.rowBases i j = .fin (specCount [R, C] s [i, j] [false, true]) ∧
+    m.columnBases i j = .fin (specCount [R, C] s [i, j] [true, false]) ∧
+    m.tableBases i j = .fin (specCount [R, C] s [i, j] [true, true]) := by
+  intro m
+  obtain ⟨h1, h2, h3, h4⟩ := flat_fields_eq R C hR hC hRw hCw s i j hi hj
+  refine ⟨?_, ?_, ?_, ?_⟩
+  · rw [h1]; exact counts_faithful_2d R C hR hC s i j hi hj
+  · rw [h2, slice2d_rowBases R C hR hC]; exact raw_rowBases R C hR hC s i j hi hj
+  · rw [h3, slice2d_columnBases R C hR hC]; exact raw_colBases R C hR hC s i j hi hj
+  · rw [h4, slice2d_tableBases R C hR hC]; exact raw_tableBases R C hR hC s i j hi hj
 
 /-- 1-D (strand): the count of row i is the weighted number of respondents in element i
     (who selected item i, for multiple response). -/
